@@ -93,6 +93,8 @@ structure RunReq where
   crash : Option (Nat × Nat) := none
   /-- per observed piece (in the order of `order`): did any file operation logged during its evaluation fail? -/
   pieceFailedOp : List Bool := []
+  /-- export images into which an injected partial write stored some bytes before failing -/
+  partialPaths : List Path := []
 
 def pSeq7 (ts : List String) : Option (RunReq × List String) :=
   match ts with
@@ -133,12 +135,15 @@ def pSeq7 (ts : List String) : Option (RunReq × List String) :=
                           let (v, r13) : List Bool × List String := match r13 with
                             | "V" :: rest => (match pList pBool rest with | some (v, r) => (v, r) | none => ([], rest))
                             | _ => ([], r13)
+                          let (pw, r13) : List Path × List String := match r13 with
+                            | "W" :: rest => (match pList pPath rest with | some (v, r) => (v, r) | none => ([], rest))
+                            | _ => ([], r13)
                           match r13 with
                           | "K" :: k :: j :: r14 =>
                             match k.toNat?, j.toNat? with
-                            | some k, some j => some (⟨docs, exp, scan, resize, threads, dirs, files, inodes, q, o, x, g, u, some (k, j), v⟩, r14)
+                            | some k, some j => some (⟨docs, exp, scan, resize, threads, dirs, files, inodes, q, o, x, g, u, some (k, j), v, pw⟩, r14)
                             | _, _ => none
-                          | _ => some (⟨docs, exp, scan, resize, threads, dirs, files, inodes, q, o, x, g, u, none, v⟩, r13)
+                          | _ => some (⟨docs, exp, scan, resize, threads, dirs, files, inodes, q, o, x, g, u, none, v, pw⟩, r13)
                       | _ => none
                     | _ => none
                   | _ => none
